@@ -1490,3 +1490,10 @@ MA('C07', 'box projection clips at the lower bound only', PROXF,
 M('C15', 'element from a callable no longer owns its data (regression)', 'odl/discr/discr_space.py',
   "                sampled = np.array(sampled, copy=True)",
   "                pass", 'C15-R4c')
+MA('C10', 'Huber proximal computes the sign after the first write', PROXF,
+   'proximal_huber.ProximalHuber._call', 'sign_x = x.ufuncs.sign()',
+   'sign_x = out.ufuncs.sign()', 'proximal:Huber')
+MA('C10', 'box projection reads the input after clipping below', PROXF,
+   'proximal_box_constraint.ProxOpBoxConstraint._call',
+   'out.ufuncs.minimum(upper, out=out)',
+   'out.assign(x.ufuncs.minimum(upper) + (out - x))', 'ProxOpBoxConstraint')
